@@ -53,6 +53,8 @@ type Gen struct {
 	Repeat int
 	// FailingSources: one non-empty file member in FailingSources has a source that cannot be opened (0 = never)
 	FailingSources int
+	// HugeTruncates: Truncate may grow a file by 8 MiB + 1234 bytes (set for pipelines without compression and encryption)
+	HugeTruncates bool
 	// RelSpell: one path operand in RelSpell is spelled relative to the root ("d/f", "./d/f") instead of absolute (0 = never)
 	RelSpell int
 	past     []Step
@@ -341,7 +343,7 @@ func (g *Gen) draw1(t *rapid.T, mr *MRunner) Step {
 			// gaps of whole I/O chunks, whole records and just beside them
 			rec := int64(g.RS) * 512
 			offs = []int64{size + 32768, size + 65536, size + 32767, 32768, 65536, size + rec, size + 2*rec, rec, 2 * rec, rec - 1, rec + 1}
-			if op == "truncate" && g.MaxSize >= 300<<10 {
+			if op == "truncate" && g.HugeTruncates && g.RS >= 20 { // (tiny records and slow encoders make 8 MiB a matter of minutes)
 				offs = append(offs, size+8<<20+1234) // far beyond any buffer or chunk size in sight
 			}
 		}
